@@ -234,7 +234,7 @@ def build_hab(td: str, seed: int, n: int, write_cfg: bool = False):
     cfg = HabContainer.load_configuration(path, search_paths=[td])
     data = HabContainer.load_from_config(cfg, search_paths=[td]).export()
     try:
-        HabContainer.parse(data)
+        _note_roundtrip(data, HabContainer.parse(data).export())
         alone = True
     except Exception:  # noqa
         alone = False
@@ -280,7 +280,8 @@ def build_mbi(td: str, seed: int, fam: str, rev: str, auth: str, n: int):
         try:
             pm = MasterBootImage.parse(family=fam, data=data, revision=rev)
             pm.validate()
-            pm.export_image()  # the bootable image draws a parsed MBI through its own exporter
+            # the bootable image draws a parsed MBI through the MBI's own exporter
+            _note_roundtrip(data, pm.export_image().export())
             alone = True
         except Exception:  # noqa
             alone = False
@@ -334,6 +335,8 @@ def build_ahab(td: str, seed: int, fam: str, rev: str, tm: str, n: int, stem: st
         b = AHABImage(family=fam, revision=rev)
         b.parse(data)
         alone = not b.verify().has_errors
+        if alone:
+            _note_roundtrip(data, b.image_info().export())
     except Exception:  # noqa
         alone = False
     return data, path, alone
@@ -348,6 +351,23 @@ def build_xmcd(fam: str, rev: str, idx: int) -> bytes:
         raise Unavailable(f"no XMCD description for {fam}")
     m, c = var[idx % len(var)]
     return XMCD(fam, MemoryType.from_label(m), ConfigurationBlockType.from_label(c), rev).export()
+
+
+_ROUNDTRIP: dict = {}
+
+
+def _note_roundtrip(data: bytes, again: bytes) -> None:
+    """Does the container's OWN parser + exporter reproduce the container (on its own, outside any bootable image)?
+    If not, export() of a parsed bootable image cannot either; that is the container format's matter (C01/C06/C07)."""
+    import hashlib
+
+    _ROUNDTRIP[hashlib.sha1(data).digest()] = bytes(again) == bytes(data)
+
+
+def roundtrips_alone(data: bytes) -> bool:
+    import hashlib
+
+    return _ROUNDTRIP.get(hashlib.sha1(data).digest(), True)
 
 
 class Unavailable(Exception):
@@ -704,6 +724,19 @@ def _parse_clauses(case: dict, lay: BL.Layout, placed: list, image: bytes, io: i
         if again == image:
             count["reexport-ok"] = 1
             return
+        # bytes inside a container that its own parser + exporter do not reproduce on their own are not judged here
+        loose = [q for q in placed if q.name in BL.APP_SEGMENTS and not roundtrips_alone(q.data)]
+        if loose:
+            a2, i2 = bytearray(again), bytearray(image)
+            for q in loose:
+                for buf in (a2, i2):
+                    buf[q.start:q.end] = bytes(len(buf[q.start:q.end]))
+            if len(a2) != len(i2) and loose[-1] is placed[-1]:
+                cut = min(len(a2), len(i2))
+                a2, i2 = a2[:cut], i2[:cut]
+            if a2 == i2:
+                count["reexport-differs-only-inside-a-container-that-does-not-round-trip-on-its-own"] = 1
+                return
         m = min(len(again), len(image))
         d = next((i for i in range(m) if again[i] != image[i]), m)
         where = next((tag(q.name) for q in placed if q.start <= d < q.end), "length" if d == m else "gap")
